@@ -44,6 +44,10 @@ CLAIMED["C11"] = dict(cat="exploration",
    text="Seeded simulation: parent generations of an evolving source, then the same current source is archived twice on forks of one frozen store, once with parent options (implicit/explicit/several parents, ignore-ctime, ignore-inode, skip-if-unchanged, parents whose data pack was dropped from index and store) and once with force; tree ids must be equal, the parent-based snapshot must read back equal to the source model, files with missing parent blobs must have been re-opened (SimSource open log), summary counters must equal the model's classification in the plain case, skip-if-unchanged must save iff the tree differs.",
    ref="5 C11", note="The generator enforces the premise (no content change without mtime/ctime change). Edit scripts include type changes file<->dir<->symlink, renames, touches.",
    tech="deterministic simulation: differential execution (parent-based vs forced) on forked store states + source open log")
+CLAIMED["C12"] = dict(cat="exploration",
+   text="Seeded simulation, one command kind per run on repositories holding 2-4 snapshots of an evolving source: copy into a destination with other key/version/compression/pack sizes/chunker that is empty or already holds part of the snapshots (copied snapshots read back equal to their source models, destination check clean); merge under last_modified_node or its reverse against a reference merge on the models; rewrite with exclude sets from a plain grammar against the model minus matches (forget on/off); repair_snapshots on undamaged repositories (no write) and after losing a data or tree pack (every file kept under its own name has its original content). Part of the commands run under seeded gate schedules.",
+   ref="5 C12", note="Plain ASCII names in this scenario; merge orderings that tie on different entries are skipped; repair follows the documented order (repair index first).",
+   tech="deterministic simulation: reference-model algebra (merge / exclude / repair) vs read-back on generated repositories")
 NOT_YET = {}
 NA = {
  "C09": "pure function of its arguments (snapshot list, keep options, explicit 'now'): no schedule, clock read, I/O, fault or history for a simulator to own; see DESIGN.md section 6",
